@@ -387,6 +387,16 @@ func checkDirFaults(c *mon.Case, d dirCase) {
 				}
 			}
 		}
+		// the preloading constructor must report the load error as well
+		c.Guard("unixfs-preload with missing shard", func() {
+			_, perr := ls.KnownReifiers["unixfs-preload"](ipld.LinkContext{Ctx: bg}, raw, ls)
+			c.Count("preloads_checked", 1)
+			if perr == nil {
+				c.Violation("C12|dir|preload-no-error", "%s: the preloading reifier returned no error", what)
+			} else if !isInjected(perr, kind) && !strings.Contains(perr.Error(), "could not fully explore") {
+				c.Violation("C12|dir|preload-other-error", "%s: preload error %T %v is not the load error", what, perr, perr)
+			}
+		})
 		// iteration on a fresh node, bounded by a logical step budget
 		node, _ = reify(ls, raw)
 		c.Guard("iteration with missing shards", func() {
